@@ -117,6 +117,8 @@ pub fn games(thorough: bool) -> Vec<Game> {
         // G11: two simultaneous pins; illegal moves of pinned men pushed in every notation
         g("G11 double pin, pinned men pushed as SAN", "3r2k1/p7/8/8/3R4/8/P7/3K1N1r w - - 0 40", &["d4b4", "f1e3", "d4d5", "a2a3", "a7a6", "d1c2", "g8g7"], d(4, 5), true, false, false),
         g("G11b diagonal + diagonal pin", "4k3/8/8/b7/7b/8/3N1N2/4K3 w - - 0 1", &["d2b3", "f2e4", "d2e4", "e1f1", "e1d1", "e8e7", "a5d2"], d(4, 5), true, false, false),
+        // G5c: counters far beyond the thresholds (values that do not fit a byte)
+        g("G5c clock 300, move number 40000", "4r1k1/5ppp/8/8/8/8/4RPPP/4K3 w - - 300 40000", &["e2d2", "e2e3", "e3e2", "e8e7", "e7e8", "g8h8", "h8g8", "e1d1", "d1e1"], d(6, 7), true, false, true),
         // G6: K v K (insufficient material, with repetitions)
         g("G6 K v K", "4k3/8/8/8/8/8/8/4K3 w - - 0 1", &["e1d1", "d1e1", "e8d8", "d8e8", "e1e2", "e2e1"], d(9, 10), false, false, true),
         // G7: lines into mate and stalemate
